@@ -33,6 +33,14 @@ CHECKS = {
     note='Trusted: clang lowering (validated per run in each configuration), irsym, polynomial normaliser, z3. Assumptions: positive dt/damping/density/volume; couplings mutual and between non-static cells. Bounds: 3 cells x 4 nodes, <= 2 steps, 5 coupling patterns.',
     technique='symbolic execution of LLVM IR (per compile-time configuration) + z3 on normalised rational-function identities; native replay',
     design='3/C03'),
+ 'C10': dict(
+    level='other',
+    text=('Memory-safety monitoring on symbolically explored paths (not a whole-program claim): irsym executes the real constructor, initialize_cell_properties and each refinement/compaction '
+          'operation (split, can_be_merged+merge, swap on every edge; rebase) on catalogue meshes whose vectors are at capacity, with symbolic coordinates; every load/store is checked against live '
+          'regions, never-written bytes are tracked into decisions, frees are checked. z3 decides which paths exist; a report counts only if valgrind memcheck confirms the same class of error natively.'),
+    note='Trusted: irsym memory model and libstdc++ models; valgrind as replay oracle (also on a -O0 build for uninitialised reads). Outside: thread schedules, parsing, ball pivoting, sprintf, every path no harness explores (see DESIGN C10).',
+    technique='symbolic execution of LLVM IR with a checked memory model; z3 path feasibility; valgrind replay',
+    design='3/C10'),
  'C12': dict(
     level='other',
     text=('Bounded symbolic proof: the real cell constructor, initialize_cell_properties, compute_volume/area/centroid, get_aabb, update_face_normal_and_area and '
